@@ -100,6 +100,9 @@ def _wfold(F, B, op, rv, wb, depth):
 
 
 def run(ctx, rep):
+    from . import c12 as _c12
+
+    _c12.union_dispatch(ctx, rep)  # a clone made through an ArcUnion increments - and tests - the count word of the Arc it holds, not a word at the other variant's offset
     for tag, F, E in ctx.each():
         A = balance.analysis(tag, F, E)
         bits = F.pointer_bits
